@@ -312,7 +312,9 @@ pub fn all_params(thorough: bool, seed: u64) -> Vec<BlkParams> {
     for _ in 0..reps {
         for transport in tmake::TRANSPORTS {
             for policy in ["notify", "poll", "late"] {
-                for feat in [0u64, 1 << 9, (1 << 5) | (1 << 9) | (1 << 28), (1 << 9) | (1 << 29), (1 << 28) | (1 << 29) | (1 << 33) | (1 << 9)] {
+                for feat in [0u64, 1 << 9, (1 << 5) | (1 << 9) | (1 << 28), (1 << 9) | (1 << 29), (1 << 28) | (1 << 29) | (1 << 33) | (1 << 9),
+                             // write-cache / topology / discard bits the driver does not implement, without FLUSH
+                             1 << 11, (1 << 6) | (1 << 10) | (1 << 11) | (1 << 12) | (1 << 13) | (1 << 14)] {
                     for legacy in [false, true] {
                         if legacy && transport.starts_with("pci") {
                             continue;
